@@ -331,6 +331,16 @@ func vfGapTree(n dst.Node, maxItems int, twoGaps bool, setup func(fd *fileDecora
 		return
 	}
 	vfReach("decorated")
+	// the extent of Bad nodes is not changed by comments or line breaks standing next to them
+	{
+		b0, b1 := vfBadLengths(n), vfBadLengths(out)
+		vfAssert(len(b0) == len(b1), "bad-node-extent-kept")
+		for i := range b0 {
+			if i < len(b1) {
+				vfAssert(b0[i] == b1[i], "bad-node-extent-kept")
+			}
+		}
+	}
 
 	mark, c0 := len(r.lines), len(r.comments)
 	var an2 ast.Node
@@ -490,7 +500,7 @@ func VerifC15GapBad() {
 		n = &dst.File{Name: vfIdent("p"), Decls: []dst.Decl{&dst.BadDecl{Length: vfInt("len", 0, 100)},
 			&dst.GenDecl{Tok: token.VAR, Specs: []dst.Spec{&dst.ValueSpec{Names: []*dst.Ident{vfIdent("x")}, Type: vfIdent("int")}}}}}
 	}
-	vfGapTree(n, 1+vfTier(), false, nil)
+	vfGapTree(n, 2+vfTier(), false, nil) // two items: a comment on a line of its own in front of the Bad node
 }
 
 // C08 (1): a qualified identifier pkg.Name with comments and line breaks around the dot collapses to a
@@ -590,4 +600,49 @@ func VerifC03TypeSpecs() {
 	vfOnlyGap = 3 // type ( A int | B int )
 	vfGapTree(n, 2, false, nil)
 	vfOnlyGap = -1
+}
+
+// VerifC03CommentFields: two comments behind a struct field, a value spec or an import spec (like type
+// specs these nodes have a Comment field that takes same-line comments): conservation with up to two
+// items in the gap behind the first element.
+func VerifC03CommentFields() {
+	vfCanonical, vfCheckLines = false, false
+	switch vfChoice("kind", 3) {
+	case 0:
+		n := &dst.StructType{Fields: &dst.FieldList{Opening: true, Closing: true, List: []*dst.Field{
+			{Names: []*dst.Ident{vfIdent("a")}, Type: vfIdent("int")},
+			{Names: []*dst.Ident{vfIdent("b")}, Type: vfIdent("int")}}}}
+		vfOnlyGap = 3 // struct { a int | b int }
+		vfGapTree(n, 2, false, nil)
+	case 1:
+		n := &dst.GenDecl{Tok: token.VAR, Lparen: true, Rparen: true, Specs: []dst.Spec{
+			&dst.ValueSpec{Names: []*dst.Ident{vfIdent("a")}, Type: vfIdent("int")},
+			&dst.ValueSpec{Names: []*dst.Ident{vfIdent("b")}, Type: vfIdent("int")}}}
+		vfOnlyGap = 3 // var ( a int | b int )
+		vfGapTree(n, 2, false, nil)
+	default:
+		n := &dst.GenDecl{Tok: token.IMPORT, Lparen: true, Rparen: true, Specs: []dst.Spec{
+			&dst.ImportSpec{Path: &dst.BasicLit{Kind: token.STRING, Value: "\"a\""}},
+			&dst.ImportSpec{Path: &dst.BasicLit{Kind: token.STRING, Value: "\"b\""}}}}
+		vfOnlyGap = 2 // import ( "a" | "b" )
+		vfGapTree(n, 2, false, nil)
+	}
+	vfOnlyGap = -1
+}
+
+// vfBadLengths lists the Length of every Bad node of a dst tree in traversal order.
+func vfBadLengths(n dst.Node) []int {
+	var out []int
+	dst.Inspect(n, func(x dst.Node) bool {
+		switch b := x.(type) {
+		case *dst.BadDecl:
+			out = append(out, b.Length)
+		case *dst.BadExpr:
+			out = append(out, b.Length)
+		case *dst.BadStmt:
+			out = append(out, b.Length)
+		}
+		return true
+	})
+	return out
 }
